@@ -269,6 +269,62 @@ impl Check for C06 {
             let ctx65 = contexts(6, 5, true);
             run_space(run, "depth-2 inner sequences on 6x5", 6, 5, &outer4, &ctx65, &inner_alphabet(6, 5, true), 2, &dsts_q);
         }
+        // deep nesting: towers of 4..=5 (quick) / 6 (thorough) layers, every assignment of one of
+        // four (opacity, blend) pairs to each level, a different draw at every level, clips
+        // pushed at two levels; checked like every other scene (step oracle + isolated machine)
+        {
+            let (w, h) = (6, 5);
+            let kinds: [(f32, BlendMode); 4] = [(0.5, BlendMode::SrcOver), (1.0, BlendMode::Multiply), (0.75, BlendMode::Src), (0.25, BlendMode::Xor)];
+            let levels: Vec<usize> = if q { vec![4, 5] } else { vec![4, 5, 6] };
+            let draws = |k: usize| -> Op {
+                match k % 4 {
+                    0 => Op::Fill(PathSpec::poly(&[(0.25, 0.5), (5.75, 0.0), (3.0, 4.75)]), SrcSpec::Solid(0x80402010), Opts::default()),
+                    1 => Op::FillRect(1., 1., 3., 3., SrcSpec::Solid(0xff204080), Opts { mode: BlendMode::Xor, alpha: 0.5, aa: true }),
+                    2 => Op::FillRect(0.5, 0.75, 4.25, 3.0, SrcSpec::Solid(0xfe00fe7f), Opts { mode: BlendMode::Multiply, alpha: 1.0, aa: true }),
+                    _ => Op::Mask(1, 1, 3, 2, vec![255, 128, 1, 0, 64, 255], SrcSpec::Solid(0xffffff00)),
+                }
+            };
+            let total: usize = levels.iter().map(|n| 4usize.pow(*n as u32)).sum();
+            run.bound("deep layer towers", format!("{} towers: depth in {:?}, each level one of 4 (opacity, blend) pairs, one draw per level, clip rect at level 1 and clip path at level 3, on {}x{}", total, levels, w, h));
+            for &n in &levels {
+                run.par(4usize.pow(n as u32), |s, l| {
+                    let mut ops = Vec::new();
+                    let mut c = s;
+                    for lv in 0..n {
+                        if lv == 1 {
+                            ops.push(Op::PushClipRect(1, 0, 6, 4));
+                        }
+                        if lv == 3 {
+                            ops.push(Op::PushClip(PathSpec::poly(&[(0.25, 0.0), (6.0, 0.5), (5.5, 5.0), (0.5, 4.75)])));
+                        }
+                        let (o, b) = kinds[c % 4];
+                        c /= 4;
+                        ops.push(Op::PushLayer(o, b));
+                        ops.push(draws(lv + s));
+                    }
+                    for lv in (0..n).rev() {
+                        ops.push(Op::PopLayer);
+                        if lv == 3 || lv == 1 {
+                            ops.push(Op::PopClip);
+                        }
+                    }
+                    let scene = Scene { w, h, dst: Dst::Distinct, ops };
+                    l.states += 1;
+                    l.transitions += scene.ops.len() as u64;
+                    l.traces += 1;
+                    l.evals += 1;
+                    match super::mixed::eval_mixed(&scene, &owns, true) {
+                        Ok(st) => {
+                            l.count("pixels_checked", st.checked);
+                            l.count(if st.foreign { "towers_stopped_by_foreign_violation_or_dependency_panic" } else { "towers_fully_checked" }, 1);
+                            l.nontrivial += 1;
+                            l.outcome(st.hash);
+                        }
+                        Err(v) => run.report(700_000 + s, v),
+                    }
+                });
+            }
+        }
         super::mixed::explore_mixed(run, "C06", owns, if q { 5 } else { 6 }, true);
     }
 
